@@ -5,23 +5,36 @@ From LV Require Import Base.Sexp Html.Stream.
 Import ListNotations.
 Open Scope N_scope.
 
+(** Views that tachys renders exactly like a view of the grammar are decoded to that view
+    (the correspondence check compares them with the real types): [Vec<T>] = its items followed
+    by the unit view (the [<!>] end marker, position NextChild); [Option]: [Some v] = [v],
+    [None] = unit; [Either*]/[Result::Ok]/[OwnedView]/[View]/[[T; 1]] = their content; non-empty
+    arrays / [StaticVec] / [Fragment] = the tuple of their items; [&str], [Cow], [Arc<str>],
+    [Oco], integers = the text node of their characters; chained [.child()] calls = one tuple
+    child. *)
 Fixpoint view_of (s : sexp) : view :=
   match s with
   | Num _ => VTuple []
   | Lst l =>
+    let go := (fix go (l : list sexp) : list view :=
+                 match l with [] => [] | x :: l => view_of x :: go l end) in
     match l with
     | Num k :: rest =>
       match k, rest with
       | 0%Z, [t] => VText (as_bytes t)
       | 1%Z, [t; c] => VElem (as_N t mod 4) (view_of c)
-      | 2%Z, _ =>
-          VTuple ((fix go (l : list sexp) : list view :=
-                     match l with [] => [] | x :: l => view_of x :: go l end) rest)
+      | 2%Z, _ => VTuple (go rest)
       | 3%Z, [f; c] => VSuspend (as_N f) (view_of c)
       | 4%Z, [f; fb; c; sm] => VBoundary (as_N f) (view_of fb) (view_of c) (as_bool sm)
       | 5%Z, [c] => VAppend (view_of c)
       | 6%Z, [t] => VRawSync (as_bytes t)
       | 7%Z, [f; c] => VRawAsync (as_N f) (view_of c)
+      | 8%Z, _ => VTuple (go rest ++ [VTuple []])
+      | 9%Z, [c] => view_of c
+      | 15%Z, [_; c] => view_of c
+      | 16%Z, _ :: cs => VTuple (go cs)
+      | 26%Z, [_; t] => VText (as_bytes t)
+      | 27%Z, t :: cs => VElem (as_N t mod 4) (VTuple (go cs))
       | _, _ => VTuple []
       end
     | _ => VTuple []
